@@ -7,9 +7,11 @@ import (
 	"bytes"
 	"encoding/binary"
 	"errors"
+	"context"
 	"io"
 
 	"github.com/ipfs/go-cid"
+	"github.com/rpcpool/yellowstone-faithful/indexes"
 )
 
 // C12.car.node — the node readers of package main over arbitrary bytes:
@@ -39,7 +41,7 @@ func c12Model_cidFromReader(r io.Reader) (int, cid.Cid, error) {
 func VerifC12CarNode() {
 	N := verifParam("N", 6)
 	verifAllocLimit(1<<24 + 4096) // the index stores node sizes in 24 bits
-	switch verifChoice("api", 4) {
+	switch verifChoice("api", 5) {
 	case 0:
 		// a section as fetched by (offset,size) from the CAR: arbitrary bytes of every length
 		n := verifChoice("len", N+1)
@@ -104,6 +106,51 @@ func VerifC12CarNode() {
 			verifAssert(int64(len(hdr)) < total && total <= int64(len(stream)), "C12.car.node: header longer than what was consumed, or more consumed than the stream holds")
 			verifReach("hdr-ok")
 		}
+	case 4:
+		// the public remote-CAR read path: Epoch.GetNodeByOffsetAndSize / ReadAtFromCar with an
+		// (offset,size) pair from a third-party index over a CAR of arbitrary bytes
+		n := verifParam("file", 14)
+		ep := &Epoch{remoteCarReader: &verifC12RAC{bytes.NewReader(verifBytes("car", n))}}
+		var oas indexes.OffsetAndSize
+		offBig := []uint64{1<<48 - 1}
+		if k := verifChoice("offsetKind", 1+len(offBig)); k == 0 {
+			oas.Offset = verifU64("offset")
+			verifAssume(oas.Offset <= 1 || (oas.Offset >= uint64(n-3) && oas.Offset <= uint64(n+1)))
+		} else {
+			oas.Offset = offBig[k-1]
+		}
+		if verifChoice("sizeKind", 2) == 0 {
+			oas.Size = verifU64("size")
+			verifAssume(oas.Size <= uint64(N+2))
+		} else {
+			oas.Size = 1<<24 - 1
+		}
+		if verifChoice("entry", 2) == 0 {
+			data, err := ep.GetNodeByOffsetAndSize(context.Background(), nil, &oas)
+			if err != nil {
+				verifAssert(data == nil, "C12.car.node: GetNodeByOffsetAndSize returned data together with an error")
+				verifReach("remote-error")
+			} else {
+				verifAssert(oas.Size != 0 && uint64(len(data)) < oas.Size && oas.Offset+oas.Size <= uint64(n), "C12.car.node: GetNodeByOffsetAndSize returned a node that does not lie inside the requested range of the file")
+				verifReach("remote-ok")
+			}
+			d2, err := ep.GetNodeByOffsetAndSize(context.Background(), nil, nil)
+			verifAssert(err != nil && d2 == nil, "C12.car.node: GetNodeByOffsetAndSize accepted a nil location")
+		} else {
+			data, err := ep.ReadAtFromCar(context.Background(), oas.Offset, oas.Size)
+			if err != nil {
+				verifAssert(data == nil, "C12.car.node: ReadAtFromCar returned data together with an error")
+				verifReach("readat-error")
+			} else {
+				verifAssert(uint64(len(data)) == oas.Size && oas.Offset+oas.Size <= uint64(n), "C12.car.node: ReadAtFromCar returned bytes outside the file")
+				verifReach("readat-ok")
+			}
+		}
 	}
 	verifReach("end")
 }
+
+// verifC12RAC: an in-memory remote CAR (io.ReaderAt + io.Closer)
+type verifC12RAC struct{ *bytes.Reader }
+
+func (verifC12RAC) Close() error { return nil }
